@@ -52,9 +52,10 @@ structure IsingH where
 def twoSite (i0 i1 o0 o1 : Bool) (J : Rat) : Rat :=
   if i0 = o0 ∧ i1 = o1 then absR J + (if i0 = i1 then -J else J) else 0
 
-/-- `longitudinal_hamiltonian` (as written: the off-diagonal entries are `|h|`) -/
+/-- `longitudinal_hamiltonian`: diagonal only (`|h| ± h`), 0 off the diagonal (the code after fix
+9464564; before it the off-diagonal entries were `|h|`) -/
 def longitudinalW (i o : Bool) (h : Rat) : Rat :=
-  absR h + (if i = o then (if i then h else -h) else 0)
+  if i = o then absR h + (if i then h else -h) else 0
 
 namespace IsingH
 
@@ -224,9 +225,17 @@ def pSwap (a b : Replica H) (evalH : Bool) : Rat :=
   powi (a.beta / b.beta) ((countOps b.cfg.slots : Int) - (countOps a.cfg.slots : Int)) *
     relH I a b evalH
 
+/-- `swap_manager_and_state` (`SwapManagers::swap_graphs`): exchange (state, operator manager), then
+both samplers take the larger of the two cutoffs through `set_cutoff` (the code after fix 074d32a;
+inside a tempering step the cutoffs are already equal, so this part is the identity there —
+`swapGraphs_eq_exchange`). -/
+def swapGraphs (a b : Replica H) : Replica H × Replica H :=
+  (({ a with cfg := b.cfg } : Replica H).setCutoff (max a.cutoff b.cutoff),
+   ({ b with cfg := a.cfg } : Replica H).setCutoff (max a.cutoff b.cutoff))
+
 /-- `swap_on_chunks`: exchange the configurations iff `p_swap > u` -/
 def swapOnChunks (a b : Replica H) (u : Rat) (evalH : Bool) : Replica H × Replica H × Bool :=
-  if u < pSwap I a b evalH then ({ a with cfg := b.cfg }, { b with cfg := a.cfg }, true)
+  if u < pSwap I a b evalH then ((swapGraphs a b).1, (swapGraphs a b).2, true)
   else (a, b, false)
 
 /-- record of one pair decision -/
@@ -573,6 +582,22 @@ def step (toks : List String) : String :=
     let a := parseGenH b1
     let b := parseGenH b2
     s!"{showBool (canSwapGeneric a b)} {showBool (canSwapGeneric b a)} {showBool (hamEqGeneric a b)} {flOpt (relativeWeightGeneric a b (parseSlots s1))} {flOpt (relativeWeightGeneric b a (parseSlots s2))}"
+  | ["mat", e, g, h, n] =>
+    -- every matrix element of `QmcIsingGraph::hamiltonian`: all bonds × all in/out patterns
+    let H := isingKind.parse [e, g, h, n]
+    let bonds := List.range (H.nedges + 2 * H.nvars)
+    let vals := bonds.flatMap fun b =>
+      let k := if b < H.nedges then 2 else 1
+      (patterns k).flatMap fun ins => (patterns k).map fun outs => showRat (H.w b ins outs)
+    String.intercalate "," vals
+  | ["swapg", e1, g1, h1, n1, c1, st1, sl1, e2, g2, h2, n2, c2, st2, sl2] =>
+    -- the public `swap_graphs` on two samplers with (possibly) different cutoffs
+    let mk (e g h n c st sl : String) : Replica IsingH :=
+      { ham := isingKind.parse [e, g, h, n], beta := 1, offset := 0, rng := 0, bw := 0,
+        cutoff := parseNat c, cfg := { state := parseBits st, slots := parseSlots sl } }
+    let r := swapGraphs (mk e1 g1 h1 n1 c1 st1 sl1) (mk e2 g2 h2 n2 c2 st2 sl2)
+    let sh (x : Replica IsingH) := s!"{x.cutoff} {x.cfg.slots.length} {showBits x.cfg.state} {showSlots x.cfg.slots}"
+    s!"{sh r.1} {sh r.2}"
   | ["hist", _k, _n, t, sf, mf] =>
     -- cadence of the drivers (C17): a tempering step at every multiple of `sf`, a sample at every
     -- multiple of `mf`, up to `t`
